@@ -111,13 +111,33 @@ inductive Val where
   | recd (tname : String) (fields : List Val)
   | textErr (d : String)
   | tiErr (v : TIIR.Val)
+  -- unmarshal side
+  | cell (t : RType) (idx : List Nat) (k : Nat) (ro : Bool)   -- an ADDRESSABLE `reflect.Value`: cell `idx` of the destination, `k` pointers down
+  | addr (t : RType) (idx : List Nat) (k : Nat) (ro : Bool)   -- `v.Addr()` of that value (`t` = type of the pointee)
+  | node (a : Nat)                                             -- a `*parse.PrefixNode/ValueNode/GroupNode`
+  | nodes (l : List Nat)                                       -- `[]parse.FragmentNode`, `[]*parse.ValueNode`
+  | numErr (range : Bool)                                      -- the `*strconv.NumError` of `ParseInt/ParseUint`
+  | parseErr (offset msg : Nat)                                -- the `*parse.SyntaxError` of `parse.Parse`
+  | dptr (t : RType)                                           -- the `interface{}` argument of `Unmarshal`: non-nil pointer(s) to the destination struct
+  | root (t : RType)                                           -- `reflect.Value` of the destination struct (`t.depth` non-nil pointers in front of it)
   deriving Inhabited
 
 abbrev Env := List Val
 
+/-- A node of the parse tree (`hash/parse/node.go`). -/
+inductive PNode where
+  | pfx (text : Bytes)                      -- `End()` = `len(Text)`
+  | value (val : Bytes) (pos fin : Nat)
+  | group (members : List Nat)              -- addresses of its `*ValueNode`s
+  deriving Inhabited, Repr, DecidableEq
+
 /-- The memory a run can see: the records `getTypeInfo` returned. -/
 structure Mem where
   heap : TIIR.Heap := []
+  /-- the destination of `Unmarshal`: one cell per index path (`FieldByIndex`), holding the field's value -/
+  dest : List (List Nat × GVal) := []
+  /-- the nodes of the parse tree -/
+  nodes : List PNode := []
   deriving Inhabited
 
 inductive BinOp where
@@ -130,14 +150,28 @@ inductive Ext1 where
   | valIsValid | valKind | valType | valIsNil | valElem | valLen | valBytes | valInt | valUint | valString
   | valBool | valFloat | valCanInterface
   | errorString | quoteRune | toBytes | toStr | makeBytes | bufString
+  -- unmarshal side
+  | typeBits | valCap | valCanAddr | valAddr | nodeType | nodeString | nodeEnd | nodeValue | nodeValues | ntypeString
+  | assertGroup | assertValue
   deriving Repr, DecidableEq, Inhabited
 
 inductive Ext2 where
   | valFieldByIndex | typeImplements | indexAnyInvalid | formatInt | formatUint
+  | hasPrefix | trimPrefix
   deriving Repr, DecidableEq, Inhabited
 
 inductive ExtN where
   | marshalText        -- `v.Interface().(encoding.TextMarshaler).MarshalText()` ↦ `b, err`
+  | parseInt           -- `strconv.ParseInt(s, base, bits)` ↦ `v, err`
+  | parseUint          -- `strconv.ParseUint(s, base, bits)` ↦ `v, err`
+  deriving Repr, DecidableEq, Inhabited
+
+/-- Stores through an addressable `reflect.Value`. -/
+inductive CellOp where
+  | setNew          -- `v.Set(reflect.New(T))`, argument: `T`
+  | setInt | setUint | setString | setLen
+  | setMakeSlice    -- `v.Set(reflect.MakeSlice(v.Type(), len, cap))`, arguments: `len`, `cap`
+  | setIndexUint    -- `v.Index(i).SetUint(x)`, arguments: `i`, `x`
   deriving Repr, DecidableEq, Inhabited
 
 inductive Expr where
@@ -165,6 +199,8 @@ inductive Expr where
   | ext1 (op : Ext1) (a : Expr)
   | ext2 (op : Ext2) (a b : Expr)
   | concat (a b : Expr)
+  | sliceFrom (s lo : Expr)            -- `s[lo:]` on a string
+  | sliceTo (s hi : Expr)              -- `s[:hi]` on a string
   | unknown (desc : String)
   deriving Inhabited
 
@@ -189,6 +225,10 @@ inductive Stmt where
   | bufWriteString (x : Nat) (e : Expr)                         -- `x.WriteString(e)`
   | bufWriteByte (x : Nat) (e : Expr)                           -- `x.WriteByte(e)`
   | reflectCopy (x : Nat) (e : Expr)                            -- `reflect.Copy(reflect.ValueOf(x), e)`
+  | cellOp (op : CellOp) (target : Expr) (args : List Expr)     -- a store through an addressable `reflect.Value`
+  | unmarshalText (lhs : LHS) (target arg : Expr)               -- `lhs = target.Interface().(encoding.TextUnmarshaler).UnmarshalText(arg)`
+  | nodeSetValue (target e : Expr)                              -- `target.Value = e` for a `*parse.ValueNode`
+  | allocGroup (x : Nat) (members : List Expr)                  -- `x = &parse.GroupNode{Values: []*parse.ValueNode{…}}`
   | unknown (desc : String)
   deriving Inhabited
 
@@ -214,6 +254,8 @@ structure Ctx where
   indexAnyInvalid : String → Bytes → Int
   /-- what `MarshalText` of a type of this class returned for this value (`none`: not described) -/
   marshalText : TextCodec → GVal → Option (Except String Bytes)
+  /-- what `UnmarshalText` (pointer receiver) of a type of this class did with this text: the value it stored, or its error -/
+  unmarshalText : TextCodec → Bytes → Option (Except String GVal) := fun _ _ => none
 
 /-- A value read from a `TIIR` record. -/
 def ofTI : TIIR.Val → Val
@@ -271,6 +313,9 @@ def isNilVal : Val → Res Bool
   | .textErr _ => .ok false
   | .tiErr _ => .ok false
   | .rtype _ => .ok false
+  | .node _ => .ok false
+  | .numErr _ => .ok false
+  | .parseErr _ _ => .ok false
   | _ => .stuck "== nil on a value that is neither a pointer nor an error"
 
 def lenOf : Val → Res Val
@@ -278,6 +323,7 @@ def lenOf : Val → Res Val
   | .ptrs l => .ok (.int l.length)
   | .str s => .ok (.int s.length)
   | .bytes s => .ok (.int s.length)
+  | .nodes l => .ok (.int l.length)
   | _ => .stuck "len of something that is not a slice or string"
 
 def indexVal (c : Val) (i : Int) : Res Val :=
@@ -287,6 +333,7 @@ def indexVal (c : Val) (i : Int) : Res Val :=
   | .ptrs l => match l[i.toNat]? with | some a => .ok (.ptr a) | none => .panic
   | .str s => match s[i.toNat]? with | some x => .ok (.int x.toNat) | none => .panic
   | .bytes s => match s[i.toNat]? with | some x => .ok (.int x.toNat) | none => .panic
+  | .nodes l => match l[i.toNat]? with | some a => .ok (.node a) | none => .panic
   | _ => .stuck "index of something that is not a slice or string"
 
 def fieldOf (m : Mem) (v : Val) (k : Nat) : Res Val :=
@@ -296,6 +343,7 @@ def fieldOf (m : Mem) (v : Val) (k : Nat) : Res Val :=
     | some o => match o[k]? with | some x => .ok (ofTI x) | none => .stuck "no such field"
     | none => .stuck "dangling pointer"
   | .nil => .panic
+  | .recd _ fs => (match fs[k]? with | some x => .ok x | none => .stuck "no such field")
   | _ => .stuck "field of a non-pointer"
 
 /-! ## `reflect.Value` over a struct environment -/
@@ -417,21 +465,42 @@ def ext1 (op : Ext1) (v : Val) : Res Val :=
   | .toStr, .bytes b => .ok (.str b)
   | .makeBytes, .int n => if n < 0 then .panic else .ok (.bytes (List.replicate n.toNat 0))
   | .bufString, .builder b => .ok (.str b)
+  | .valCanAddr, .rv _ _ _ => .ok (.bool false)
+  | .typeBits, .rtype t =>
+    (match t.depth, t.kind with
+     | 0, .int b => .ok (.int b)
+     | 0, .uint b => .ok (.int b)
+     | _, _ => .panic)
+  | .ntypeString, .int k =>
+    if k = 0 then .ok (.str [112, 114, 101, 102, 105, 120]) else if k = 1 then .ok (.str [103, 114, 111, 117, 112])
+    else if k = 2 then .ok (.str [118, 97, 108, 117, 101]) else .stuck "NodeType.String of an unknown type"
+  | .errorString, .numErr r => .ok (.msg [.numErrText r])
+  | .valueOf, .dptr t => .ok (.root t)
+  | .typeOf, .dptr t => .ok (.rtype t)
+  | .valKind, .root t => .ok (.int (kindNum t))
+  | .valIsNil, .root t => if t.depth > 0 then .ok (.bool false) else .stuck "IsNil on a struct"
+  | .valElem, .root t => (match t.depth with | d + 1 => .ok (.root { t with depth := d }) | 0 => .panic)
+  | .valType, .root t => .ok (.rtype t)
+  | .valIsValid, .root _ => .ok (.bool true)
   | _, _ => .stuck "external operation on a value it is not defined on"
 
 def ext2 (c : Ctx) (op : Ext2) (a b : Val) : Res Val :=
   match op, a, b with
   | .valFieldByIndex, .rv t g ro, .ints idx => valFieldByIndex c.structs t g ro true idx
   | .typeImplements, .rtype t, .global i =>
-    if t.depth ≠ 0 then .stuck "Implements on a pointer type" else
-    if i = "textMarshalerType" then .ok (.bool (decide (t.mt ≠ .none)))
-    else if i = "textUnmarshalerType" then .ok (.bool (decide (t.ut ≠ .none)))
+    if i = "textMarshalerType" then
+      (if t.depth ≠ 0 then .stuck "Implements on a pointer type" else .ok (.bool (decide (t.mt ≠ .none))))
+    else if i = "textUnmarshalerType" then
+      (if t.depth = 0 then .ok (.bool false) else if t.depth = 1 then .ok (.bool (decide (t.ut ≠ .none)))
+       else .stuck "Implements on a pointer to a pointer")
     else .stuck "Implements of an interface the IR does not model"
   | .indexAnyInvalid, .global e, .bytes s => .ok (.int (c.indexAnyInvalid e s))
   | .formatInt, .int v, .int base =>
     if 2 ≤ base ∧ base ≤ 36 then .ok (.str (Strconv.formatInt v base.toNat)) else .stuck "FormatInt with a base outside 2..36"
   | .formatUint, .int v, .int base =>
     if 2 ≤ base ∧ base ≤ 36 ∧ 0 ≤ v then .ok (.str (Strconv.formatUint v.toNat base.toNat)) else .stuck "FormatUint with a base outside 2..36"
+  | .hasPrefix, .str s, .str p => .ok (.bool (p.isPrefixOf s))
+  | .trimPrefix, .str s, .str p => .ok (.str (if p.isPrefixOf s then s.drop p.length else s))
   | _, _, _ => .stuck "external operation on values it is not defined on"
 
 def extN (c : Ctx) (op : ExtN) (args : List Val) : Res (List Val) :=
@@ -441,7 +510,163 @@ def extN (c : Ctx) (op : ExtN) (args : List Val) : Res (List Val) :=
      | some (.ok b) => .ok [.bytes b, .nil]
      | some (.error d) => .ok [.bytes [], .textErr d]
      | none => .stuck "MarshalText on a value its class does not describe")
+  | .parseInt, [.str s, .int base, .int bits] =>
+    if 2 ≤ base ∧ base ≤ 36 ∧ 0 < bits ∧ bits ≤ 64 then
+      match Strconv.parseInt s base.toNat bits.toNat with
+      | .ok v => .ok [.int v, .nil]
+      | .error .syntax => .ok [.int 0, .numErr false]
+      | .error .range => .ok [.int 0, .numErr true]
+    else .stuck "ParseInt with a base/bit size the model does not cover"
+  | .parseUint, [.str s, .int base, .int bits] =>
+    if 2 ≤ base ∧ base ≤ 36 ∧ 0 < bits ∧ bits ≤ 64 then
+      match Strconv.parseUint s base.toNat bits.toNat with
+      | .ok v => .ok [.int v, .nil]
+      | .error .syntax => .ok [.int 0, .numErr false]
+      | .error .range => .ok [.int 0, .numErr true]
+    else .stuck "ParseUint with a base/bit size the model does not cover"
   | _, _ => .stuck "external call on values it is not defined on"
+
+/-! ## The destination cells and the parse nodes (unmarshal side) -/
+
+/-- The value `k` pointers below `g`. -/
+def getDeep : Nat → GVal → Option GVal
+  | 0, g => some g
+  | k + 1, .ptr g => getDeep k g
+  | _ + 1, _ => none
+
+/-- `g` with the value `k` pointers below it replaced. -/
+def setDeep : Nat → GVal → GVal → Option GVal
+  | 0, _, new => some new
+  | k + 1, .ptr g, new => (setDeep k g new).map .ptr
+  | _ + 1, _, _ => none
+
+def cellRoot (m : Mem) (idx : List Nat) : Option GVal := (m.dest.find? (·.1 = idx)).map (·.2)
+
+def setRoot (dest : List (List Nat × GVal)) (idx : List Nat) (g : GVal) : List (List Nat × GVal) :=
+  dest.map fun p => if p.1 = idx then (p.1, g) else p
+
+def cellGet (m : Mem) (idx : List Nat) (k : Nat) : Res GVal :=
+  match cellRoot m idx with
+  | none => .stuck "no such cell in the destination"
+  | some r => match getDeep k r with | some g => .ok g | none => .stuck "dangling reference"
+
+def cellSet (m : Mem) (idx : List Nat) (k : Nat) (g : GVal) : Res Mem :=
+  match cellRoot m idx with
+  | none => .stuck "no such cell in the destination"
+  | some r =>
+    match setDeep k r g with
+    | some r' => .ok { m with dest := setRoot m.dest idx r' }
+    | none => .stuck "dangling reference"
+
+/-- The zero value of a type. -/
+def zeroG (t : RType) : GVal :=
+  if t.depth > 0 then .nilPtr else
+  match t.kind with
+  | .string => .str []
+  | .bytes => .bytes []
+  | .byteArray n => .bytes (List.replicate n 0)
+  | .int _ => .int 0
+  | .uint _ => .uint 0
+  | .structRef _ => .struct []
+  | .other _ => .other 0 0
+
+def nodeOp (m : Mem) (op : Ext1) (a : Nat) (n : PNode) : Res Val :=
+  match op, n with
+  | .nodeType, .pfx _ => .ok (.int 0)
+  | .nodeType, .group _ => .ok (.int 1)
+  | .nodeType, .value _ _ _ => .ok (.int 2)
+  | .nodeString, .pfx t => .ok (.str t)
+  | .nodeString, .group _ => .ok (.str [])
+  | .nodeString, .value v _ _ => .ok (.str v)
+  | .nodeEnd, .pfx t => .ok (.int t.length)
+  | .nodeEnd, .value _ _ fin => .ok (.int fin)
+  | .nodeEnd, .group ms =>
+    (match ms.getLast? with
+     | none => .panic
+     | some l => match m.nodes[l]? with | some (.value _ _ fin) => .ok (.int fin) | _ => .stuck "group member that is not a value node")
+  | .nodeValue, .value v _ _ => .ok (.str v)
+  | .nodeValues, .group ms => .ok (.nodes ms)
+  | .assertGroup, .group _ => .ok (.node a)
+  | .assertGroup, _ => .panic
+  | .assertValue, .value _ _ _ => .ok (.node a)
+  | .assertValue, _ => .panic
+  | _, _ => .stuck "operation on a parse node it is not defined on"
+
+/-- External operations with one operand that may read the memory (references into the destination, parse nodes). -/
+def ext1M (m : Mem) (op : Ext1) (v : Val) : Res Val :=
+  match v with
+  | .cell t idx k ro =>
+    (match op with
+     | .valElem =>
+       (match cellGet m idx k with
+        | .ok g =>
+          (match t.depth, g with
+           | d + 1, .ptr _ => .ok (.cell { t with depth := d } idx (k + 1) ro)
+           | _ + 1, .nilPtr => .ok .rvInvalid
+           | _ + 1, _ => .stuck "value does not match its type"
+           | 0, _ => .panic)
+        | .panic => .panic
+        | .stuck w => .stuck w)
+     | .valCanAddr => .ok (.bool true)
+     | .valAddr => .ok (.addr t idx k ro)
+     | .valCap =>
+       (match cellGet m idx k with
+        | .ok (.bytes b) => if t.depth = 0 then .ok (.int b.length) else .panic
+        | .ok _ => .panic
+        | .panic => .panic
+        | .stuck w => .stuck w)
+     | _ =>
+       (match cellGet m idx k with
+        | .ok g => ext1 op (.rv t g ro)
+        | .panic => .panic
+        | .stuck w => .stuck w))
+  | .addr t _ _ ro =>
+    (match op with
+     | .valCanInterface => .ok (.bool (!ro))
+     | .valType => .ok (.rtype { t with depth := t.depth + 1 })
+     | _ => .stuck "operation on an address it is not defined on")
+  | .node a =>
+    (match m.nodes[a]? with
+     | some n => nodeOp m op a n
+     | none => .stuck "dangling node")
+  | v => ext1 op v
+
+/-- `val.FieldByIndex(idx)` on the destination struct: the cell with that index path (it must be one of the
+cells the destination is given by), typed by the struct description; read-only iff the field is unexported. -/
+def rootFieldByIndex (structs : List GoStruct) (m : Mem) (t : RType) (idx : List Int) : Res Val :=
+  if t.depth ≠ 0 then .panic else
+  match TIIR.fieldByIndex structs t true idx with
+  | .ok (f, _) =>
+    if idx.all (0 ≤ ·) then
+      (match cellRoot m (idx.map Int.toNat) with
+       | some _ => .ok (.cell (fieldType f) (idx.map Int.toNat) 0 (!f.exported))
+       | none => .stuck "no such cell in the destination")
+    else .panic
+  | .panic => .panic
+  | .stuck w => .stuck w
+
+def ext2M (c : Ctx) (m : Mem) (op : Ext2) (a b : Val) : Res Val :=
+  match op, a, b with
+  | .valFieldByIndex, .root t, .ints idx => rootFieldByIndex c.structs m t idx
+  | _, _, _ => ext2 c op a b
+
+def concatVal (a b : Val) : Res Val :=
+  match a, b with
+  | .str x, .str y => .ok (.str (x ++ y))
+  | _, _ => do
+    let x ← msgParts a
+    let y ← msgParts b
+    pure (.msg (x ++ y))
+
+def sliceFromVal (c : Val) (lo : Int) : Res Val :=
+  match c with
+  | .str s => if 0 ≤ lo ∧ lo ≤ s.length then .ok (.str (s.drop lo.toNat)) else .panic
+  | _ => .stuck "slice expression on a non-string"
+
+def sliceToVal (c : Val) (hi : Int) : Res Val :=
+  match c with
+  | .str s => if 0 ≤ hi ∧ hi ≤ s.length then .ok (.str (s.take hi.toNat)) else .panic
+  | _ => .stuck "slice expression on a non-string"
 
 def eval (c : Ctx) (m : Mem) (env : Env) : Expr → Res Val
   | .int n => .ok (.int n)
@@ -483,15 +708,23 @@ def eval (c : Ctx) (m : Mem) (env : Env) : Expr → Res Val
     let s ← eval c m env b
     let k ← asInt (← eval c m env i)
     indexVal s k
-  | .ext1 op a => do ext1 op (← eval c m env a)
+  | .ext1 op a => do ext1M m op (← eval c m env a)
   | .ext2 op a b => do
     let x ← eval c m env a
     let y ← eval c m env b
-    ext2 c op x y
+    ext2M c m op x y
   | .concat a b => do
-    let x ← msgParts (← eval c m env a)
-    let y ← msgParts (← eval c m env b)
-    pure (.msg (x ++ y))
+    let x ← eval c m env a
+    let y ← eval c m env b
+    concatVal x y
+  | .sliceFrom s lo => do
+    let x ← eval c m env s
+    let l ← asInt (← eval c m env lo)
+    sliceFromVal x l
+  | .sliceTo s hi => do
+    let x ← eval c m env s
+    let u ← asInt (← eval c m env hi)
+    sliceToVal x u
   | .unknown d => .stuck ("unknown expression: " ++ d)
 
 def evalArgs (c : Ctx) (m : Mem) (env : Env) : List Expr → Res (List Val)
@@ -548,6 +781,41 @@ def loop (cond : Mem → Env → Res Bool) (body post : Mem → Env → Out) : N
 /-- `reflect.Copy(dst, src)` for a `[]byte` destination and a byte-array source. -/
 def copyBytes (dst src : Bytes) : Bytes := src.take dst.length ++ dst.drop src.length
 
+def asNodes : List Val → Option (List Nat)
+  | [] => some []
+  | .node a :: vs => (asNodes vs).map (a :: ·)
+  | _ => none
+
+/-- A store through an addressable `reflect.Value` (`reflect` panics on a read-only one). -/
+def cellStore (m : Mem) (op : CellOp) (target : Val) (args : List Val) : Res Mem :=
+  match target with
+  | .cell t idx k ro =>
+    if ro then .panic else
+    (match op, args with
+     | .setNew, [.rtype et] => if t.depth > 0 then cellSet m idx k (.ptr (zeroG et)) else .panic
+     | .setInt, [.int v] =>
+       (match t.depth, t.kind with | 0, .int _ => cellSet m idx k (.int v) | _, _ => .panic)
+     | .setUint, [.int v] =>
+       (match t.depth, t.kind with | 0, .uint _ => cellSet m idx k (.uint v.toNat) | _, _ => .panic)
+     | .setString, [.str s] =>
+       (match t.depth, t.kind with | 0, .string => cellSet m idx k (.str s) | _, _ => .panic)
+     | .setLen, [.int n] =>
+       (match t.depth, t.kind, cellGet m idx k with
+        | 0, .bytes, .ok (.bytes b) =>
+          if n < 0 then .panic else cellSet m idx k (.bytes (b.take n.toNat ++ List.replicate (n.toNat - b.length) 0))
+        | _, _, _ => .panic)
+     | .setMakeSlice, [.int n, .int cp] =>
+       (match t.depth, t.kind with
+        | 0, .bytes => if n < 0 ∨ cp < n then .panic else cellSet m idx k (.bytes (List.replicate n.toNat 0))
+        | _, _ => .panic)
+     | .setIndexUint, [.int i, .int x] =>
+       (match t.depth, cellGet m idx k with
+        | 0, .ok (.bytes b) =>
+          if 0 ≤ i ∧ i < b.length then cellSet m idx k (.bytes (b.set i.toNat (UInt8.ofNat x.toNat))) else .panic
+        | _, _ => .panic)
+     | _, _ => .stuck "store with arguments the IR does not model")
+  | _ => .stuck "store through something that is not an addressable value"
+
 def exec (c : Ctx) : Stmt → Mem → Env → Out
   | .skip, m, env => .norm m env
   | .seq a b, m, env => (exec c a m env).andThen (exec c b)
@@ -599,6 +867,37 @@ def exec (c : Ctx) : Stmt → Mem → Env → Out
          | 0, .byteArray _ => .norm m (env.set x (.bytes (copyBytes dst src)))
          | _, _ => .stuck "reflect.Copy from something that is not a byte array")
       | _, _ => .stuck "reflect.Copy on values the IR does not model"
+  | .cellOp op target args, m, env =>
+    bindR (eval c m env target) fun tv =>
+    bindR (evalArgs c m env args) fun vals =>
+    bindR (cellStore m op tv vals) fun m' => .norm m' env
+  | .unmarshalText lhs target arg, m, env =>
+    bindR (eval c m env target) fun tv =>
+    bindR (eval c m env arg) fun av =>
+      match tv, av with
+      | .addr t idx k ro, .bytes s =>
+        if ro then .panic else
+        (match c.unmarshalText t.ut s with
+         | some (.ok g) => bindR (cellSet m idx k g) fun m' => bindR (store env lhs .nil) fun env' => .norm m' env'
+         | some (.error d) => bindR (store env lhs (.textErr d)) fun env' => .norm m env'
+         | none => .stuck "UnmarshalText of a class that does not describe it")
+      | _, _ => .stuck "UnmarshalText on a receiver the description language does not cover (value receiver)"
+  | .nodeSetValue target e, m, env =>
+    bindR (eval c m env target) fun tv =>
+    bindR (eval c m env e) fun v =>
+      match tv, v with
+      | .node a, .str s =>
+        (match m.nodes[a]? with
+         | some (.value _ pos fin) => .norm { m with nodes := m.nodes.set a (.value s pos fin) } env
+         | _ => .stuck "store into something that is not a value node")
+      | _, _ => .stuck "store into something that is not a value node"
+  | .allocGroup x members, m, env =>
+    bindR (evalArgs c m env members) fun vs =>
+      match asNodes vs with
+      | some as =>
+        if x < env.length then .norm { m with nodes := m.nodes ++ [.group as] } (env.set x (.node m.nodes.length))
+        else .stuck "no such slot"
+      | none => .stuck "group member that is not a node"
   | .unknown d, _, _ => .stuck ("unknown statement: " ++ d)
 
 structure Proc where
@@ -629,10 +928,11 @@ structure World where
   ext : String → Mem → List Val → Res (Mem × List Val)
   indexAnyInvalid : String → Bytes → Int
   marshalText : TextCodec → GVal → Option (Except String Bytes)
+  unmarshalText : TextCodec → Bytes → Option (Except String GVal) := fun _ _ => none
 
 def World.ctx (w : World) (call : Nat → Mem → List Val → Res (Mem × List Val)) : Ctx :=
   { structs := w.structs, fuel := w.fuel, call := call, ext := w.ext, indexAnyInvalid := w.indexAnyInvalid,
-    marshalText := w.marshalText }
+    marshalText := w.marshalText, unmarshalText := w.unmarshalText }
 
 def callIn (P : Program) (w : World) : Nat → Nat → Mem → List Val → Res (Mem × List Val)
   | 0, _, _, _ => .stuck "call depth exceeded"
@@ -656,6 +956,8 @@ def exprUnknowns : Expr → Nat
   | .ext1 _ a => exprUnknowns a
   | .ext2 _ a b => exprUnknowns a + exprUnknowns b
   | .concat a b => exprUnknowns a + exprUnknowns b
+  | .sliceFrom a b => exprUnknowns a + exprUnknowns b
+  | .sliceTo a b => exprUnknowns a + exprUnknowns b
   | _ => 0
 
 /-- Number of `unknown` nodes in a statement: 0 means the function lies wholly inside the fragment. -/
@@ -672,6 +974,10 @@ def Stmt.unknowns : Stmt → Nat
   | .bufWriteString _ e => exprUnknowns e
   | .bufWriteByte _ e => exprUnknowns e
   | .reflectCopy _ e => exprUnknowns e
+  | .cellOp _ t args => exprUnknowns t + (args.map exprUnknowns).sum
+  | .unmarshalText _ t a => exprUnknowns t + exprUnknowns a
+  | .nodeSetValue t e => exprUnknowns t + exprUnknowns e
+  | .allocGroup _ ms => (ms.map exprUnknowns).sum
   | .unknown _ => 1
   | _ => 0
 
